@@ -9,7 +9,7 @@ SOFT = [(0.25, 0.75, 0.5, 1.0, 0.0, 0.125), (0.5, 0.125, 0.875, 0.25, 1.0, 0.0),
         (0.125, 0.5, 1.0, 0.0, 0.625, 0.25)]
 
 
-def cases(tier, seed):
+def cases(tier, seed, light=False):
     """Sorted sequences (multisets) of rows (label, group, stratum)."""
     def ms(G, S, nmax, nmin=2):  # n=1 is outside the statement (2..4 groups) and load_data cannot take it
         # control-feature levels deliberately include a FALSY one: integer 0 (even VERIF_SEED) or the empty string (odd)
@@ -21,6 +21,11 @@ def cases(tier, seed):
     if tier == "quick":
         yield from ms(3, 0, 4)
         yield from ms(3, 2, 3)
+    elif light:  # C07 (all 2^n hard predictors x lambda grid per dataset): a smaller thorough space that still completes
+        yield from ms(3, 0, 5)
+        yield from ms(4, 0, 4)
+        yield from ms(3, 2, 4)
+        yield from ms(2, 3, 3)
     else:
         yield from ms(3, 0, 6)
         yield from ms(4, 0, 5)
